@@ -695,7 +695,7 @@ def make_configs(ck):
                     threads, items, dm = max(threads, 4), max(items, 12), rng.choice([2, 2, 3, 4, 12])
                     limit = max(limit, 3)
                 if r % 5 == 3:        # library-allocated (non-trivial) tokens; pointer tokens
-                    dm = dm % 10 + rng.choice([20, 20, 10])
+                    dm = dm % 10 + rng.choice([20, 30, 10, 30])
                 cfgs.append((modes, limit, items, threads, rng.randrange(1 << 30), dm))
                 j += 1
         # longer pipelines
@@ -709,7 +709,7 @@ def make_configs(ck):
                 for items in its:
                     for threads in ths:
                         for dm in dms:
-                            v = 10 if rng.random() < 0.15 else 20 if rng.random() < 0.2 else 0
+                            v = 10 if rng.random() < 0.15 else 20 if rng.random() < 0.2 else 30 if rng.random() < 0.2 else 0
                             cfgs.append((modes, limit, items, threads, rng.randrange(1 << 30), dm + v))
         for modes in all_modes(4)[39:]:
             for r in range(60):
